@@ -622,6 +622,33 @@ fn main() {
             }
         }
     }
+    // a family made systematically: hostname-anchored removeparam rules (with and without a path) on
+    // URLs WITHOUT a path whose query or fragment holds an authority look-alike (`@host/path`, `//host/`)
+    for h in ["example.com", "ads.net", "foo.com", "x.com"] {
+        let rules: Vec<String> = vec![format!("||{}/$removeparam=id", h), format!("||{}/track$removeparam=ref", h), format!("||{}^$removeparam=utm", h)];
+        RULE_NAMES.with(|n| *n.borrow_mut() = vec!["id".into(), "ref".into(), "utm".into()]);
+        RULE_BASE.with(|x| *x.borrow_mut() = None);
+        for look in [format!("u=me@{}/track", h), format!("next=//{}/", h), format!("r=https://{}/track", h), format!("m=a:b@{}/", h), "plain=1".to_string()] {
+            for sep in ["?", "#", "/?", "/#"] {
+                let url = format!("https://{}{}{}&id=5&ref=6&utm=7", h, sep, look);
+                for mode in [0usize, 1] {
+                    let Some((names, imp, got, _)) = eval(&rules, &url, "https://a.com/page", "xhr", mode, 0) else { continue };
+                    let want = if imp { None } else { reference(&names, &url) };
+                    sm.oracle_evaluations += 1;
+                    cs.stat("pathless_url_with_authority_lookalike");
+                    let desc = json!({"rules": rules, "url": url, "source": "https://a.com/page", "type": "xhr", "mode": mode, "batch": 0, "order": []});
+                    if got != want {
+                        sm.failure(None, &format!("rewritten_url {:?} but the specification gives {:?}", got, want), desc.clone());
+                    }
+                    for m in TEXT_MISMATCH.with(|m| std::mem::take(&mut *m.borrow_mut())) {
+                        let mut d = desc.clone();
+                        d["text_reading"] = json!(true);
+                        sm.failure(None, &m, d);
+                    }
+                }
+            }
+        }
+    }
     { let (a, b, d) = TEXT_COUNTS.with(|c| c.get()); sm.extra.insert("removeparam_rules_judged_by_text".into(), json!({"applies": a, "does_not_apply": b, "outside_the_reading": d})); }
     cs.finish();
     sm.write(&a.out, &cs);
